@@ -139,7 +139,7 @@ theorem create_state (s : State) (r : Req) :
   | none => left; rfl
   | some nf =>
     simp only
-    by_cases hp : hasImsiPrefix r.supi = true
+    by_cases hp : supiAccepted r.supi = true
     · right
       simp only [hp, not_true_eq_false, if_false]
       refine ⟨_, rfl, trivial, ?_, ?_⟩
